@@ -147,43 +147,72 @@ macro "opc_tac" : tactic => `(tactic| (
   all_goals (first | rfl | (conv => lhs; rw [rd_comm]) | skip)
   all_goals (try rfl)))
 
-macro "opc_block " h:ident : tactic =>
-  `(tactic| (rcases $h:ident with rfl | rfl | rfl | rfl | rfl | rfl | rfl | rfl <;> opc_tac))
-
 set_option maxRecDepth 4000
 
-theorem opcOK_00 (n : Nat) (h : n = 0x00 ∨ n = 0x01 ∨ n = 0x02 ∨ n = 0x03 ∨ n = 0x04 ∨ n = 0x05 ∨ n = 0x06 ∨ n = 0x07) : OpcOK n := by opc_block h
-theorem opcOK_08 (n : Nat) (h : n = 0x08 ∨ n = 0x09 ∨ n = 0x0a ∨ n = 0x0b ∨ n = 0x0c ∨ n = 0x0d ∨ n = 0x0e ∨ n = 0x0f) : OpcOK n := by opc_block h
-theorem opcOK_10 (n : Nat) (h : n = 0x10 ∨ n = 0x11 ∨ n = 0x12 ∨ n = 0x13 ∨ n = 0x14 ∨ n = 0x15 ∨ n = 0x16 ∨ n = 0x17) : OpcOK n := by opc_block h
-theorem opcOK_18 (n : Nat) (h : n = 0x18 ∨ n = 0x19 ∨ n = 0x1a ∨ n = 0x1b ∨ n = 0x1c ∨ n = 0x1d ∨ n = 0x1e ∨ n = 0x1f) : OpcOK n := by opc_block h
-theorem opcOK_20 (n : Nat) (h : n = 0x20 ∨ n = 0x21 ∨ n = 0x22 ∨ n = 0x23 ∨ n = 0x24 ∨ n = 0x25 ∨ n = 0x26 ∨ n = 0x27) : OpcOK n := by opc_block h
-theorem opcOK_28 (n : Nat) (h : n = 0x28 ∨ n = 0x29 ∨ n = 0x2a ∨ n = 0x2b ∨ n = 0x2c ∨ n = 0x2d ∨ n = 0x2e ∨ n = 0x2f) : OpcOK n := by opc_block h
-theorem opcOK_30 (n : Nat) (h : n = 0x30 ∨ n = 0x31 ∨ n = 0x32 ∨ n = 0x33 ∨ n = 0x34 ∨ n = 0x35 ∨ n = 0x36 ∨ n = 0x37) : OpcOK n := by opc_block h
-theorem opcOK_38 (n : Nat) (h : n = 0x38 ∨ n = 0x39 ∨ n = 0x3a ∨ n = 0x3b ∨ n = 0x3c ∨ n = 0x3d ∨ n = 0x3e ∨ n = 0x3f) : OpcOK n := by opc_block h
-theorem opcOK_40 (n : Nat) (h : n = 0x40 ∨ n = 0x41 ∨ n = 0x42 ∨ n = 0x43 ∨ n = 0x44 ∨ n = 0x45 ∨ n = 0x46 ∨ n = 0x47) : OpcOK n := by opc_block h
-theorem opcOK_48 (n : Nat) (h : n = 0x48 ∨ n = 0x49 ∨ n = 0x4a ∨ n = 0x4b ∨ n = 0x4c ∨ n = 0x4d ∨ n = 0x4e ∨ n = 0x4f) : OpcOK n := by opc_block h
-theorem opcOK_50 (n : Nat) (h : n = 0x50 ∨ n = 0x51 ∨ n = 0x52 ∨ n = 0x53 ∨ n = 0x54 ∨ n = 0x55 ∨ n = 0x56 ∨ n = 0x57) : OpcOK n := by opc_block h
-theorem opcOK_58 (n : Nat) (h : n = 0x58 ∨ n = 0x59 ∨ n = 0x5a ∨ n = 0x5b ∨ n = 0x5c ∨ n = 0x5d ∨ n = 0x5e ∨ n = 0x5f) : OpcOK n := by opc_block h
-theorem opcOK_60 (n : Nat) (h : n = 0x60 ∨ n = 0x61 ∨ n = 0x62 ∨ n = 0x63 ∨ n = 0x64 ∨ n = 0x65 ∨ n = 0x66 ∨ n = 0x67) : OpcOK n := by opc_block h
-theorem opcOK_68 (n : Nat) (h : n = 0x68 ∨ n = 0x69 ∨ n = 0x6a ∨ n = 0x6b ∨ n = 0x6c ∨ n = 0x6d ∨ n = 0x6e ∨ n = 0x6f) : OpcOK n := by opc_block h
-theorem opcOK_70 (n : Nat) (h : n = 0x70 ∨ n = 0x71 ∨ n = 0x72 ∨ n = 0x73 ∨ n = 0x74 ∨ n = 0x75 ∨ n = 0x76 ∨ n = 0x77) : OpcOK n := by opc_block h
-theorem opcOK_78 (n : Nat) (h : n = 0x78 ∨ n = 0x79 ∨ n = 0x7a ∨ n = 0x7b ∨ n = 0x7c ∨ n = 0x7d ∨ n = 0x7e ∨ n = 0x7f) : OpcOK n := by opc_block h
-theorem opcOK_80 (n : Nat) (h : n = 0x80 ∨ n = 0x81 ∨ n = 0x82 ∨ n = 0x83 ∨ n = 0x84 ∨ n = 0x85 ∨ n = 0x86 ∨ n = 0x87) : OpcOK n := by opc_block h
-theorem opcOK_88 (n : Nat) (h : n = 0x88 ∨ n = 0x89 ∨ n = 0x8a ∨ n = 0x8b ∨ n = 0x8c ∨ n = 0x8d ∨ n = 0x8e ∨ n = 0x8f) : OpcOK n := by opc_block h
-theorem opcOK_90 (n : Nat) (h : n = 0x90 ∨ n = 0x91 ∨ n = 0x92 ∨ n = 0x93 ∨ n = 0x94 ∨ n = 0x95 ∨ n = 0x96 ∨ n = 0x97) : OpcOK n := by opc_block h
-theorem opcOK_98 (n : Nat) (h : n = 0x98 ∨ n = 0x99 ∨ n = 0x9a ∨ n = 0x9b ∨ n = 0x9c ∨ n = 0x9d ∨ n = 0x9e ∨ n = 0x9f) : OpcOK n := by opc_block h
-theorem opcOK_a0 (n : Nat) (h : n = 0xa0 ∨ n = 0xa1 ∨ n = 0xa2 ∨ n = 0xa3 ∨ n = 0xa4 ∨ n = 0xa5 ∨ n = 0xa6 ∨ n = 0xa7) : OpcOK n := by opc_block h
-theorem opcOK_a8 (n : Nat) (h : n = 0xa8 ∨ n = 0xa9 ∨ n = 0xaa ∨ n = 0xab ∨ n = 0xac ∨ n = 0xad ∨ n = 0xae ∨ n = 0xaf) : OpcOK n := by opc_block h
-theorem opcOK_b0 (n : Nat) (h : n = 0xb0 ∨ n = 0xb1 ∨ n = 0xb2 ∨ n = 0xb3 ∨ n = 0xb4 ∨ n = 0xb5 ∨ n = 0xb6 ∨ n = 0xb7) : OpcOK n := by opc_block h
-theorem opcOK_b8 (n : Nat) (h : n = 0xb8 ∨ n = 0xb9 ∨ n = 0xba ∨ n = 0xbb ∨ n = 0xbc ∨ n = 0xbd ∨ n = 0xbe ∨ n = 0xbf) : OpcOK n := by opc_block h
-theorem opcOK_c0 (n : Nat) (h : n = 0xc0 ∨ n = 0xc1 ∨ n = 0xc2 ∨ n = 0xc3 ∨ n = 0xc4 ∨ n = 0xc5 ∨ n = 0xc6 ∨ n = 0xc7) : OpcOK n := by opc_block h
-theorem opcOK_c8 (n : Nat) (h : n = 0xc8 ∨ n = 0xc9 ∨ n = 0xca ∨ n = 0xcb ∨ n = 0xcc ∨ n = 0xcd ∨ n = 0xce ∨ n = 0xcf) : OpcOK n := by opc_block h
-theorem opcOK_d0 (n : Nat) (h : n = 0xd0 ∨ n = 0xd1 ∨ n = 0xd2 ∨ n = 0xd3 ∨ n = 0xd4 ∨ n = 0xd5 ∨ n = 0xd6 ∨ n = 0xd7) : OpcOK n := by opc_block h
-theorem opcOK_d8 (n : Nat) (h : n = 0xd8 ∨ n = 0xd9 ∨ n = 0xda ∨ n = 0xdb ∨ n = 0xdc ∨ n = 0xdd ∨ n = 0xde ∨ n = 0xdf) : OpcOK n := by opc_block h
-theorem opcOK_e0 (n : Nat) (h : n = 0xe0 ∨ n = 0xe1 ∨ n = 0xe2 ∨ n = 0xe3 ∨ n = 0xe4 ∨ n = 0xe5 ∨ n = 0xe6 ∨ n = 0xe7) : OpcOK n := by opc_block h
-theorem opcOK_e8 (n : Nat) (h : n = 0xe8 ∨ n = 0xe9 ∨ n = 0xea ∨ n = 0xeb ∨ n = 0xec ∨ n = 0xed ∨ n = 0xee ∨ n = 0xef) : OpcOK n := by opc_block h
-theorem opcOK_f0 (n : Nat) (h : n = 0xf0 ∨ n = 0xf1 ∨ n = 0xf2 ∨ n = 0xf3 ∨ n = 0xf4 ∨ n = 0xf5 ∨ n = 0xf6 ∨ n = 0xf7) : OpcOK n := by opc_block h
-theorem opcOK_f8 (n : Nat) (h : n = 0xf8 ∨ n = 0xf9 ∨ n = 0xfa ∨ n = 0xfb ∨ n = 0xfc ∨ n = 0xfd ∨ n = 0xfe ∨ n = 0xff) : OpcOK n := by opc_block h
+theorem opcOK_00 (n : Nat) (h : n = 0x00 ∨ n = 0x01 ∨ n = 0x02 ∨ n = 0x03 ∨ n = 0x04 ∨ n = 0x05 ∨ n = 0x06 ∨ n = 0x07) : OpcOK n := by
+  rcases h with rfl | rfl | rfl | rfl | rfl | rfl | rfl | rfl <;> opc_tac
+theorem opcOK_08 (n : Nat) (h : n = 0x08 ∨ n = 0x09 ∨ n = 0x0a ∨ n = 0x0b ∨ n = 0x0c ∨ n = 0x0d ∨ n = 0x0e ∨ n = 0x0f) : OpcOK n := by
+  rcases h with rfl | rfl | rfl | rfl | rfl | rfl | rfl | rfl <;> opc_tac
+theorem opcOK_10 (n : Nat) (h : n = 0x10 ∨ n = 0x11 ∨ n = 0x12 ∨ n = 0x13 ∨ n = 0x14 ∨ n = 0x15 ∨ n = 0x16 ∨ n = 0x17) : OpcOK n := by
+  rcases h with rfl | rfl | rfl | rfl | rfl | rfl | rfl | rfl <;> opc_tac
+theorem opcOK_18 (n : Nat) (h : n = 0x18 ∨ n = 0x19 ∨ n = 0x1a ∨ n = 0x1b ∨ n = 0x1c ∨ n = 0x1d ∨ n = 0x1e ∨ n = 0x1f) : OpcOK n := by
+  rcases h with rfl | rfl | rfl | rfl | rfl | rfl | rfl | rfl <;> opc_tac
+theorem opcOK_20 (n : Nat) (h : n = 0x20 ∨ n = 0x21 ∨ n = 0x22 ∨ n = 0x23 ∨ n = 0x24 ∨ n = 0x25 ∨ n = 0x26 ∨ n = 0x27) : OpcOK n := by
+  rcases h with rfl | rfl | rfl | rfl | rfl | rfl | rfl | rfl <;> opc_tac
+theorem opcOK_28 (n : Nat) (h : n = 0x28 ∨ n = 0x29 ∨ n = 0x2a ∨ n = 0x2b ∨ n = 0x2c ∨ n = 0x2d ∨ n = 0x2e ∨ n = 0x2f) : OpcOK n := by
+  rcases h with rfl | rfl | rfl | rfl | rfl | rfl | rfl | rfl <;> opc_tac
+theorem opcOK_30 (n : Nat) (h : n = 0x30 ∨ n = 0x31 ∨ n = 0x32 ∨ n = 0x33 ∨ n = 0x34 ∨ n = 0x35 ∨ n = 0x36 ∨ n = 0x37) : OpcOK n := by
+  rcases h with rfl | rfl | rfl | rfl | rfl | rfl | rfl | rfl <;> opc_tac
+theorem opcOK_38 (n : Nat) (h : n = 0x38 ∨ n = 0x39 ∨ n = 0x3a ∨ n = 0x3b ∨ n = 0x3c ∨ n = 0x3d ∨ n = 0x3e ∨ n = 0x3f) : OpcOK n := by
+  rcases h with rfl | rfl | rfl | rfl | rfl | rfl | rfl | rfl <;> opc_tac
+theorem opcOK_40 (n : Nat) (h : n = 0x40 ∨ n = 0x41 ∨ n = 0x42 ∨ n = 0x43 ∨ n = 0x44 ∨ n = 0x45 ∨ n = 0x46 ∨ n = 0x47) : OpcOK n := by
+  rcases h with rfl | rfl | rfl | rfl | rfl | rfl | rfl | rfl <;> opc_tac
+theorem opcOK_48 (n : Nat) (h : n = 0x48 ∨ n = 0x49 ∨ n = 0x4a ∨ n = 0x4b ∨ n = 0x4c ∨ n = 0x4d ∨ n = 0x4e ∨ n = 0x4f) : OpcOK n := by
+  rcases h with rfl | rfl | rfl | rfl | rfl | rfl | rfl | rfl <;> opc_tac
+theorem opcOK_50 (n : Nat) (h : n = 0x50 ∨ n = 0x51 ∨ n = 0x52 ∨ n = 0x53 ∨ n = 0x54 ∨ n = 0x55 ∨ n = 0x56 ∨ n = 0x57) : OpcOK n := by
+  rcases h with rfl | rfl | rfl | rfl | rfl | rfl | rfl | rfl <;> opc_tac
+theorem opcOK_58 (n : Nat) (h : n = 0x58 ∨ n = 0x59 ∨ n = 0x5a ∨ n = 0x5b ∨ n = 0x5c ∨ n = 0x5d ∨ n = 0x5e ∨ n = 0x5f) : OpcOK n := by
+  rcases h with rfl | rfl | rfl | rfl | rfl | rfl | rfl | rfl <;> opc_tac
+theorem opcOK_60 (n : Nat) (h : n = 0x60 ∨ n = 0x61 ∨ n = 0x62 ∨ n = 0x63 ∨ n = 0x64 ∨ n = 0x65 ∨ n = 0x66 ∨ n = 0x67) : OpcOK n := by
+  rcases h with rfl | rfl | rfl | rfl | rfl | rfl | rfl | rfl <;> opc_tac
+theorem opcOK_68 (n : Nat) (h : n = 0x68 ∨ n = 0x69 ∨ n = 0x6a ∨ n = 0x6b ∨ n = 0x6c ∨ n = 0x6d ∨ n = 0x6e ∨ n = 0x6f) : OpcOK n := by
+  rcases h with rfl | rfl | rfl | rfl | rfl | rfl | rfl | rfl <;> opc_tac
+theorem opcOK_70 (n : Nat) (h : n = 0x70 ∨ n = 0x71 ∨ n = 0x72 ∨ n = 0x73 ∨ n = 0x74 ∨ n = 0x75 ∨ n = 0x76 ∨ n = 0x77) : OpcOK n := by
+  rcases h with rfl | rfl | rfl | rfl | rfl | rfl | rfl | rfl <;> opc_tac
+theorem opcOK_78 (n : Nat) (h : n = 0x78 ∨ n = 0x79 ∨ n = 0x7a ∨ n = 0x7b ∨ n = 0x7c ∨ n = 0x7d ∨ n = 0x7e ∨ n = 0x7f) : OpcOK n := by
+  rcases h with rfl | rfl | rfl | rfl | rfl | rfl | rfl | rfl <;> opc_tac
+theorem opcOK_80 (n : Nat) (h : n = 0x80 ∨ n = 0x81 ∨ n = 0x82 ∨ n = 0x83 ∨ n = 0x84 ∨ n = 0x85 ∨ n = 0x86 ∨ n = 0x87) : OpcOK n := by
+  rcases h with rfl | rfl | rfl | rfl | rfl | rfl | rfl | rfl <;> opc_tac
+theorem opcOK_88 (n : Nat) (h : n = 0x88 ∨ n = 0x89 ∨ n = 0x8a ∨ n = 0x8b ∨ n = 0x8c ∨ n = 0x8d ∨ n = 0x8e ∨ n = 0x8f) : OpcOK n := by
+  rcases h with rfl | rfl | rfl | rfl | rfl | rfl | rfl | rfl <;> opc_tac
+theorem opcOK_90 (n : Nat) (h : n = 0x90 ∨ n = 0x91 ∨ n = 0x92 ∨ n = 0x93 ∨ n = 0x94 ∨ n = 0x95 ∨ n = 0x96 ∨ n = 0x97) : OpcOK n := by
+  rcases h with rfl | rfl | rfl | rfl | rfl | rfl | rfl | rfl <;> opc_tac
+theorem opcOK_98 (n : Nat) (h : n = 0x98 ∨ n = 0x99 ∨ n = 0x9a ∨ n = 0x9b ∨ n = 0x9c ∨ n = 0x9d ∨ n = 0x9e ∨ n = 0x9f) : OpcOK n := by
+  rcases h with rfl | rfl | rfl | rfl | rfl | rfl | rfl | rfl <;> opc_tac
+theorem opcOK_a0 (n : Nat) (h : n = 0xa0 ∨ n = 0xa1 ∨ n = 0xa2 ∨ n = 0xa3 ∨ n = 0xa4 ∨ n = 0xa5 ∨ n = 0xa6 ∨ n = 0xa7) : OpcOK n := by
+  rcases h with rfl | rfl | rfl | rfl | rfl | rfl | rfl | rfl <;> opc_tac
+theorem opcOK_a8 (n : Nat) (h : n = 0xa8 ∨ n = 0xa9 ∨ n = 0xaa ∨ n = 0xab ∨ n = 0xac ∨ n = 0xad ∨ n = 0xae ∨ n = 0xaf) : OpcOK n := by
+  rcases h with rfl | rfl | rfl | rfl | rfl | rfl | rfl | rfl <;> opc_tac
+theorem opcOK_b0 (n : Nat) (h : n = 0xb0 ∨ n = 0xb1 ∨ n = 0xb2 ∨ n = 0xb3 ∨ n = 0xb4 ∨ n = 0xb5 ∨ n = 0xb6 ∨ n = 0xb7) : OpcOK n := by
+  rcases h with rfl | rfl | rfl | rfl | rfl | rfl | rfl | rfl <;> opc_tac
+theorem opcOK_b8 (n : Nat) (h : n = 0xb8 ∨ n = 0xb9 ∨ n = 0xba ∨ n = 0xbb ∨ n = 0xbc ∨ n = 0xbd ∨ n = 0xbe ∨ n = 0xbf) : OpcOK n := by
+  rcases h with rfl | rfl | rfl | rfl | rfl | rfl | rfl | rfl <;> opc_tac
+theorem opcOK_c0 (n : Nat) (h : n = 0xc0 ∨ n = 0xc1 ∨ n = 0xc2 ∨ n = 0xc3 ∨ n = 0xc4 ∨ n = 0xc5 ∨ n = 0xc6 ∨ n = 0xc7) : OpcOK n := by
+  rcases h with rfl | rfl | rfl | rfl | rfl | rfl | rfl | rfl <;> opc_tac
+theorem opcOK_c8 (n : Nat) (h : n = 0xc8 ∨ n = 0xc9 ∨ n = 0xca ∨ n = 0xcb ∨ n = 0xcc ∨ n = 0xcd ∨ n = 0xce ∨ n = 0xcf) : OpcOK n := by
+  rcases h with rfl | rfl | rfl | rfl | rfl | rfl | rfl | rfl <;> opc_tac
+theorem opcOK_d0 (n : Nat) (h : n = 0xd0 ∨ n = 0xd1 ∨ n = 0xd2 ∨ n = 0xd3 ∨ n = 0xd4 ∨ n = 0xd5 ∨ n = 0xd6 ∨ n = 0xd7) : OpcOK n := by
+  rcases h with rfl | rfl | rfl | rfl | rfl | rfl | rfl | rfl <;> opc_tac
+theorem opcOK_d8 (n : Nat) (h : n = 0xd8 ∨ n = 0xd9 ∨ n = 0xda ∨ n = 0xdb ∨ n = 0xdc ∨ n = 0xdd ∨ n = 0xde ∨ n = 0xdf) : OpcOK n := by
+  rcases h with rfl | rfl | rfl | rfl | rfl | rfl | rfl | rfl <;> opc_tac
+theorem opcOK_e0 (n : Nat) (h : n = 0xe0 ∨ n = 0xe1 ∨ n = 0xe2 ∨ n = 0xe3 ∨ n = 0xe4 ∨ n = 0xe5 ∨ n = 0xe6 ∨ n = 0xe7) : OpcOK n := by
+  rcases h with rfl | rfl | rfl | rfl | rfl | rfl | rfl | rfl <;> opc_tac
+theorem opcOK_e8 (n : Nat) (h : n = 0xe8 ∨ n = 0xe9 ∨ n = 0xea ∨ n = 0xeb ∨ n = 0xec ∨ n = 0xed ∨ n = 0xee ∨ n = 0xef) : OpcOK n := by
+  rcases h with rfl | rfl | rfl | rfl | rfl | rfl | rfl | rfl <;> opc_tac
+theorem opcOK_f0 (n : Nat) (h : n = 0xf0 ∨ n = 0xf1 ∨ n = 0xf2 ∨ n = 0xf3 ∨ n = 0xf4 ∨ n = 0xf5 ∨ n = 0xf6 ∨ n = 0xf7) : OpcOK n := by
+  rcases h with rfl | rfl | rfl | rfl | rfl | rfl | rfl | rfl <;> opc_tac
+theorem opcOK_f8 (n : Nat) (h : n = 0xf8 ∨ n = 0xf9 ∨ n = 0xfa ∨ n = 0xfb ∨ n = 0xfc ∨ n = 0xfd ∨ n = 0xfe ∨ n = 0xff) : OpcOK n := by
+  rcases h with rfl | rfl | rfl | rfl | rfl | rfl | rfl | rfl <;> opc_tac
 
 theorem opcOK_all (n : Nat) (h : n < 256) : OpcOK n :=
   if h0 : n < 8 then opcOK_00 n (by omega) else
@@ -226,5 +255,65 @@ theorem exec_eq_spec (env : Env) (s : State) (insn : Insn) (h : Isa.isF7 insn = 
   have := opcOK_all opc.toNat opc.isLt env s dst src off imm
   simp only [BitVec.ofNat_toNat, BitVec.setWidth_eq] at this
   exact this h
+
+-- consequences used by the C01 corollaries ---------------------------------------------------------
+
+/-- the F7 instructions are exactly (some of) the 64-bit compare-with-immediate jumps -/
+theorem decode_of_isF7 (insn : Insn) (h : Isa.isF7 insn = true) :
+    ∃ c d v o, Isa.decode insn = some (.jmp .w64 c d (.imm v) o) := by
+  obtain ⟨opc, dst, src, off, imm⟩ := insn
+  simp only [Isa.isF7, Bool.and_eq_true, Bool.or_eq_true, decide_eq_true_eq] at h
+  obtain ⟨h, -⟩ := h
+  rcases h with ((((rfl | rfl) | rfl) | rfl) | rfl) | rfl <;> simp [Isa.decode, Isa.cond?]
+
+theorem isF7_false_of_decode {insn : Insn} {i : Isa.Instr} (hd : Isa.decode insn = some i)
+    (hi : ∀ c d v o, i ≠ .jmp .w64 c d (.imm v) o) : Isa.isF7 insn = false := by
+  cases h : Isa.isF7 insn with
+  | false => rfl
+  | true =>
+    obtain ⟨c, d, v, o, h'⟩ := decode_of_isF7 insn h
+    rw [hd] at h'
+    exact absurd (Option.some.inj h') (hi c d v o)
+
+theorem exec_of_decode (env : Env) (s : State) {insn : Insn} {i : Isa.Instr} (hd : Isa.decode insn = some i)
+    (hi : ∀ c d v o, i ≠ .jmp .w64 c d (.imm v) o) : Interp.exec env s insn = Isa.exec env s i := by
+  rw [exec_eq_spec env s insn (isF7_false_of_decode hd hi), Isa.spec, hd]; rfl
+
+theorem rd_some {s : State} {i : Nat} {v : BitVec 64} (k : BitVec 64 → Outcome) (h : s.reg[i]? = some v) :
+    rd s i k = k v := by
+  unfold rd; rw [h]
+
+theorem rd_eq_next {s s' : State} {i : Nat} {k : BitVec 64 → Outcome} (h : rd s i k = .next s') :
+    ∃ v, s.reg[i]? = some v ∧ k v = .next s' := by
+  unfold rd at h
+  split at h
+  · exact ⟨_, ‹_›, h⟩
+  · cases h
+
+theorem wr_eq_next {s s' : State} {i : Nat} {v : BitVec 64} (h : wr s i v = .next s') :
+    i < 11 ∧ s' = { s with reg := s.reg.setIfInBounds i v } := by
+  unfold wr at h
+  split at h
+  · exact ⟨‹_›, (Outcome.next.inj h).symm⟩
+  · cases h
+
+theorem wr_reg {s s' : State} {i : Nat} {v : BitVec 64} (h : wr s i v = .next s') : s'.reg[i]? = some v := by
+  obtain ⟨hi, rfl⟩ := wr_eq_next h
+  simp [hi]
+
+
+
+
+-- witnesses ---------------------------------------------------------------------------------------
+
+/-- F7 witness state: all registers 0 except r1 = 0xffff_ffff_ffff_ffff -/
+def f7State : State :=
+  { reg := (Vector.replicate 11 (0 : BitVec 64)).setIfInBounds 1 (-1), pc := 0, frames := [],
+    usage := Vector.replicate 8 256, mem := default, log := [] }
+
+/-- an environment with the program `mov r0, 7; exit`, no helpers, no extra ranges -/
+def demoEnv : Env :=
+  { prog := #[0xb7,0,0,0,7,0,0,0, 0x95,0,0,0,0,0,0,0], helpers := fun _ => none, allowed := [],
+    usage := fun _ => none }
 
 end Rbpf
